@@ -164,7 +164,7 @@ def main(tier, seed):
     cases = []    # (class, name, text, expect)
     for (name, text, exp) in shapes():
         cases.append(("shape", name, text, exp))
-    nsch = int(os.environ.get("C06_N", "6")) if tier == "quick" else 120
+    nsch = int(os.environ.get("C06_N", "6")) if tier == "quick" else 300
     nmut = 5 if tier == "quick" else 12
     for k in range(nsch):
         r = rng(seed, "c06/%d" % k)
